@@ -78,7 +78,23 @@ BINOPS = {
     ("*", "poly", "poly"): dict(g="pmul {0} {1}", ret="poly"),
     ("*", "poly", "elem"): dict(g="pscale {0} {1}", ret="poly"),
 }
-UNOPS = {("-", "poly"): dict(g="pneg {0}", ret="poly")}
+BINOPS.update({
+    ("+", "vec", "vec"): dict(g="vadd {0} {1}", ret="vec", fallible=True),
+    ("-", "vec", "vec"): dict(g="vsub {0} {1}", ret="vec", fallible=True),
+    ("*", "vec", "elem"): dict(g="vscale {0} {1}", ret="vec"),
+    ("*", "elem", "vec"): dict(g="vscale_l {0} {1}", ret="vec"),
+    ("/", "vec", "elem"): dict(g="vdiv {0} {1}", ret="vec", fallible=True),
+})
+UNOPS = {("-", "poly"): dict(g="pneg {0}", ret="poly"), ("-", "vec"): dict(g="vneg {0}", ret="vec")}
+# overloaded compound assignments between non-scalar operands: (op, type of the place, type of the right operand)
+ASSIGNOPS = {
+    ("+=", "vec", "vec"): dict(g="vadd_assign {0} {1}", ret="vec", fallible=True),
+    ("-=", "vec", "vec"): dict(g="vsub_assign {0} {1}", ret="vec", fallible=True),
+    ("+=", "vec", "elem"): dict(g="vadd_scalar {0} {1}", ret="vec"),
+    ("-=", "vec", "elem"): dict(g="vsub_scalar {0} {1}", ret="vec"),
+    ("*=", "vec", "elem"): dict(g="vmul_scalar {0} {1}", ret="vec"),
+    ("/=", "vec", "elem"): dict(g="vdiv_scalar {0} {1}", ret="vec", fallible=True),
+}
 
 # FIELDS[(type, field)] = (format of the read, type);  SETFIELDS[(type, field)] = format of the updated owner ({0}=owner, {1}=value)
 FIELDS = {
@@ -186,4 +202,47 @@ MODULES["Poly"] = dict(
         dict(name="psub", file=P_ARI, impl=r"Sub<&Polynomial<T>>for&Polynomial<T>$", fn="sub"),
         dict(name="pmul", file=P_ARI, impl=r"Mul<&Polynomial<T>>for&Polynomial<T>$", fn="mul"),
         dict(name="pscale", file=P_ARI, impl=r"Mul<T>for&Polynomial<T>$", fn="mul"),
+    ])
+
+# ---------------------------------------------------------------------------------------------------- Tridiagonal (Model/Tridiag.v)
+GTYPES = {"tri": "(tridiag A)"}
+RUST_TYPES = [(r"^Tridiagonal<(T|f64)>$", "tri")]
+FIELDS.update({("tri", "sub"): ("(tsub {0})", "vec"), ("tri", "main"): ("(tmain {0})", "vec"),
+               ("tri", "sup"): ("(tsup {0})", "vec"), ("tri", "n"): ("(tn {0})", "usize")})
+SETFIELDS.update({("tri", "sub"): "(mkT {1} (tmain {0}) (tsup {0}) (tn {0}))", ("tri", "main"): "(mkT (tsub {0}) {1} (tsup {0}) (tn {0}))",
+                  ("tri", "sup"): "(mkT (tsub {0}) (tmain {0}) {1} (tn {0}))", ("tri", "n"): "(mkT (tsub {0}) (tmain {0}) (tsup {0}) {1})"})
+STRUCTS["Tridiagonal"] = (["sub", "main", "sup", "n"], "(mkT {0} {1} {2} {3})", "tri")
+METHODS.update({
+    ("tri", "size", 0): dict(g="tsize {0}", ret="usize"),
+    ("tri", "transpose_in_place", 0): dict(g="ttranspose_in_place {0}", ret="unit", out=["recv"]),
+    ("vec", "push_front", 1): dict(g="vpush_front {0} {1}", ret="unit", out=["recv"], args=["elem"]),
+})
+TRI = "src/tridiagonal.rs"
+TRI_T = r"^<T>Tridiagonal<T>$"
+TRI_N = r"^<T:Clone\+Copy\+Zero\+Number>Tridiagonal<T>$"
+MODULES["Tridiag"] = dict(
+    imports="From OV Require Import Base.Panic Base.Arith Model.Vector Model.Matrix Model.Tridiag gen.SrcPrelude.",
+    funcs=[
+        dict(name="with_vectors", file=TRI, impl=TRI_T, fn="with_vectors"),
+        dict(name="with_vecs", file=TRI, impl=TRI_T, fn="with_vecs"),
+        dict(name="tnew", file=TRI, impl=TRI_N, fn="new"),
+        dict(name="with_elements", file=TRI, impl=TRI_N, fn="with_elements"),
+        dict(name="tresize", file=TRI, impl=TRI_N, fn="resize"),
+        dict(name="ttranspose_in_place", file=TRI, impl=TRI_N, fn="transpose_in_place"),
+        dict(name="ttranspose", file=TRI, impl=TRI_N, fn="transpose"),
+        dict(name="tdet", file=TRI, impl=TRI_N, fn="det"),
+        dict(name="tconvert", file=TRI, impl=TRI_N, fn="convert"),
+        dict(name="tsolve", file=TRI, impl=TRI_N, fn="solve"),
+        dict(name="tindex", file=TRI, impl=r"Index<\(usize,usize\)>forTridiagonal<T>$", fn="index"),
+        dict(name="tneg", file=TRI, impl=r"NegforTridiagonal<T>$", fn="neg"),
+        dict(name="tadd", file=TRI, impl=r"Add<Tridiagonal<T>>forTridiagonal<T>$", fn="add"),
+        dict(name="tminus", file=TRI, impl=r"Sub<Tridiagonal<T>>forTridiagonal<T>$", fn="sub"),
+        dict(name="tscale", file=TRI, impl=r"Mul<T>forTridiagonal<T>$", fn="mul"),
+        dict(name="tscale_l", file=TRI, impl=r"^Mul<Tridiagonal<f64>>forf64$", fn="mul"),
+        dict(name="tdiv", file=TRI, impl=r"Div<T>forTridiagonal<T>$", fn="div"),
+        dict(name="tadd_assign_s", file=TRI, impl=r"AddAssign<T>forTridiagonal<T>$", fn="add_assign"),
+        dict(name="tsub_assign_s", file=TRI, impl=r"SubAssign<T>forTridiagonal<T>$", fn="sub_assign"),
+        dict(name="tmul_assign_s", file=TRI, impl=r"MulAssign<T>forTridiagonal<T>$", fn="mul_assign"),
+        dict(name="tdiv_assign_s", file=TRI, impl=r"DivAssign<T>forTridiagonal<T>$", fn="div_assign"),
+        dict(name="tmul", file=TRI, impl=r"Mul<&Vector<T>>for&Tridiagonal<T>$", fn="mul"),
     ])
